@@ -331,7 +331,7 @@ pub fn gen_case(g: &mut G, ex: &Excl) -> Case {
             0 => Item::CallArg(gen_lit(g, 10, ex)),
             1 if g.chance(1, 2) => Item::TwoCalls(gen_lit(g, 6, ex), gen_lit(g, 6, ex), g.chance(1, 2)),
             1 if g.chance(1, 2) => Item::LocalInitCalls(gen_lit(g, 5, ex), gen_lit(g, 5, ex), g.below(3) as u8),
-            1 => Item::ThreeCalls(gen_lit(g, 5, ex), gen_lit(g, 5, ex), gen_lit(g, 5, ex), g.below(5) as u8),
+            1 => Item::ThreeCalls(gen_lit(g, 5, ex), gen_lit(g, 5, ex), gen_lit(g, 5, ex), g.below(9) as u8),
             2 => Item::Assign(gen_lit(g, 10, ex)),
             3 if g.chance(1, 2) => Item::LocalPtrInit(gen_lit(g, 10, ex)),
             3 => Item::Assign(gen_lit(g, 10, ex)),
@@ -383,7 +383,12 @@ fn item_text(it: &Item) -> String {
             2 => format!("cr = gc(\"{}\", fc(\"{}\")) + fc(\"{}\");", spell(a), spell(b), spell(c)),
             // three literal-bearing groups side by side, and a literal on each side of a call in one argument list
             3 => format!("cr = fc(\"{}\") + fc(\"{}\") + fc(\"{}\");", spell(a), spell(b), spell(c)),
-            _ => format!("cr = g3(\"{}\", fc(\"{}\"), \"{}\");", spell(a), spell(b), spell(c)),
+            4 => format!("cr = g3(\"{}\", fc(\"{}\"), \"{}\");", spell(a), spell(b), spell(c)),
+            // a parenthesised group with literals of its own after a literal of the enclosing expression
+            5 => format!("cr = fc(\"{}\") + (fc(\"{}\") + fc(\"{}\"));", spell(a), spell(b), spell(c)),
+            6 => format!("cr = fc(\"{}\") && (fc(\"{}\") || fc(\"{}\"));", spell(a), spell(b), spell(c)),
+            7 => format!("cr = (fc(\"{}\") | fc(\"{}\")) + (fc(\"{}\"));", spell(a), spell(b), spell(c)),
+            _ => format!("pp = cr ? \"{}\" : (cr == 2 ? \"{}\" : \"{}\");", spell(a), spell(b), spell(c)),
         },
         Item::TwoCalls(a, b, nested) => {
             if *nested {
